@@ -212,7 +212,11 @@ PREFIX struct AdfVolume * adfMount ( struct AdfDevice * const dev,
 
     nBlock = vol->lastBlock - vol->firstBlock + 1 - 2;
 
-    adfReadBitmap ( vol, (uint32_t) nBlock, &root );
+    if ( adfReadBitmap ( vol, (uint32_t) nBlock, &root ) != RC_OK ) {
+        (*adfEnv.wFct)("adfMount : bitmap can't be read");
+        vol->mounted = FALSE;
+        return NULL;
+    }
     vol->curDirPtr = vol->rootBlock;
 
 /*printf("blockSize=%d\n",vol->blockSize);*/
